@@ -165,6 +165,13 @@ class CallMixin:
                 if f"{b.name}.{attr}" in mod.funcs:
                     yield VFunc("func", f"{b.name}.{attr}", data=mod.name, obj=("cls", b)), st
                     return
+            if b.kind == "module" and b.name == "sys" and attr in ("stdout", "stderr"):
+                # process-wide streams: ghost globals (declared in the contract's `ghost` clause)
+                key = f"ghost_sys_{attr}"
+                if key not in st.env:
+                    raise Unsupported(f"sys.{attr} used but {key} is not declared as a ghost global")
+                yield st.env[key], st
+                return
             if b.kind == "module":
                 mod = source.load(b.name)
                 yield self.lookup_module(mod, attr), st
@@ -176,7 +183,7 @@ class CallMixin:
                 yield VFunc("bound", attr, obj=base), st
                 return
         if isinstance(b, V) and b.sort.kind in ("opaque", "dict"):
-            yield VFunc("bound", attr, obj=base), st
+            yield VFunc("bound", attr, obj=b), st
             return
         raise Unsupported(f"attribute .{attr} of {getattr(b, 'sort', None) or getattr(b, 'kind', type(b).__name__)}")
 
@@ -628,6 +635,10 @@ class CallMixin:
             if name not in EXC_PARENTS:
                 EXC_PARENTS[name] = bases[0].split(".")[-1] if bases else "Exception"
             yield VFunc("excinst", name, data=args), st
+            return
+        if (mod.name, name) in self.reg.opaque_classes:
+            self.trusted_used.add(f"{mod.name}.{name}(...): construction of an object treated as opaque")
+            yield self.fresh(OPAQUE(self.reg.opaque_classes[(mod.name, name)]), f"new_{name}", st), st
             return
         if name in self.U.records:
             decl = self.U.records[name]
